@@ -177,6 +177,15 @@ Theorem C09_render_total :
 Proof. exact render_total. Qed.
 Print Assumptions C09_render_total.
 
+(* pascal_case / snake_case / upper_case / keep_case and their helpers (static analysis, T0):
+   every v[k] / m.group() is dominated by a test of v / m — names with leading, trailing or doubled
+   underscores cannot crash the C / Go renderers or the linter *)
+Theorem C09_render_total_names :
+  name_funcs_unguarded = [] /\ In "pascal_case"%string name_funcs_analysed /\
+  In "snake_case"%string name_funcs_analysed.
+Proof. exact (conj name_funcs_total (conj (or_intror (or_introl eq_refl)) (or_intror (or_intror (or_introl eq_refl))))). Qed.
+Print Assumptions C09_render_total_names.
+
 Example C09_render_nonvacuous :
   render LPy (TMsg false [(1, TArr false 3 (TEnum 3 [0; 1])); (2, TAlias (TArr true 2 TByte));
                           (3, TMsg true [(1, TEnum 8 [5])])]) [0; 2 ^ 64; -(10 ^ 40)] = Ok tt /\
